@@ -40,6 +40,10 @@ func c02(c *Ctx) {
 	c02R5(c)
 	c02R6(c)
 	c03R6(c)
+	mergeRule(c, "C08.R10")
+	// a pod's addresses are released together (shared rule): a leftover IPv6 of a deleted pod would be
+	// inherited by its same-named successor next to an IPv4 from another interface
+	c03R1(c)
 	ruleCASPublication(c, "C02.R8", "Node", map[string]string{"Finalizers": "removed on deletion; no assignment is decided on it"})
 	itemIndependent(c, "C02.R7", [][3]string{{nodeCtlPkg, "ReconcileNode.getPods", "one request per pod"}})
 }
@@ -525,6 +529,27 @@ func c02R5(c *Ctx) {
 		c.Check(w == nil, "C02.R5", "IPv4 reference dropped only after the address was unmarked", p.Pos(s.Node), fn.Key(), "must-pass: <pod>.ipv4Ref.IP.PodID = \"\" → <pod>.ipv4Ref = nil", "path: "+p.describePath(w))
 	}
 	c.Floor("C02.R5", "reference drops", 1, m)
+	// safety direction: what the roll-back unmarks is a binding made in this pass — the pod reports
+	// no address of that family (an address a running pod reports is never unbound here)
+	k := 0
+	for _, s := range p.StoresTo([]*FuncInfo{fn}, podID) {
+		if s.RHS == nil {
+			continue
+		}
+		if tv := info.Types[s.RHS]; tv.Value == nil || tv.Value.ExactString() != `""` {
+			continue
+		}
+		lhs := exprString(s.LHS)
+		for _, fam := range []string{"4", "6"} {
+			suf := ".ipv" + fam + "Ref.IP.PodID"
+			if strings.HasSuffix(lhs, suf) {
+				k++
+				base := strings.TrimSuffix(lhs, suf)
+				c.Require("C02.R5", "the roll-back unmarks only an IPv"+fam+" binding made in this pass", fn, s.Node, base+".IPv"+fam+` == ""`, nil)
+			}
+		}
+	}
+	c.Floor("C02.R5", "unmarking stores of the roll-back", 1, k)
 }
 
 func c02R6(c *Ctx) {
